@@ -170,7 +170,8 @@ func ruleNameAllocators(c *Ctx, r *Repo, r1, r2, r3 string) {
 	}
 	c.Check(nStore == 1, r3, "visibleNames|single-writer", "template/method_scope.go", "exactly one store site", fmt.Sprintf("%d store sites into visibleNames, want 1 (AddName)", nStore))
 	if fd := FuncDecl(tp, "MethodScope.AddName"); fd != nil {
-		ok := len(fd.Body.List) == 1 && nodeStringStmt(fd.Body.List[0]) == "m.visibleNames[name] = nil"
+		paths, _ := enumerateFunc(info, fd)
+		ok := len(paths) == 1 && len(paths[0].Steps) == 1 && strings.HasPrefix(paths[0].Steps[0], "store RECV.visibleNames[ARG0] = ")
 		c.Check(ok, r3, "AddName|stores-its-argument", r.Pos(fd.Pos()), "visibleNames[name] = nil", "AddName does not record exactly its argument")
 	}
 	if fd := FuncDecl(tp, "MethodScope.NameExists"); fd != nil {
@@ -179,11 +180,15 @@ func ruleNameAllocators(c *Ctx, r *Repo, r1, r2, r3 string) {
 		c.Check(ok, r3, "NameExists|reads-the-map", r.Pos(fd.Pos()), "NameExists = presence of the name in visibleNames", "NameExists is not the presence test of its argument in visibleNames")
 	}
 	if fd := FuncDecl(tp, "NewMethodScope"); fd != nil {
-		rs := rangeOver(fd, "importQualifiers")
+		rs := rangeOverC(tp, fd, "ARG0.importQualifiers")
 		ok := false
 		if rs != nil && len(rs.Body.List) == 1 {
 			if k, isId := rs.Key.(*ast.Ident); isId {
-				ok = nodeStringStmt(rs.Body.List[0]) == "m.AddName("+k.Name+")"
+				if es, isES := rs.Body.List[0].(*ast.ExprStmt); isES {
+					if call, isCall := es.X.(*ast.CallExpr); isCall && strings.HasSuffix(calleeName(info, call), "MethodScope).AddName") && len(call.Args) == 1 && isObj(info, call.Args[0], info.Defs[k]) {
+						ok = true
+					}
+				}
 			}
 		}
 		c.Check(ok, r3, "NewMethodScope|seeds-qualifiers", r.Pos(fd.Pos()), "every import qualifier of the file is visible in a new scope", "a new method scope does not start with every import qualifier of the file as a visible name")
@@ -329,13 +334,20 @@ func ruleAddImport(c *Ctx, r *Repo, rule string) {
 			if id, ok := ie.Index.(*ast.Ident); ok && info.Uses[id] == cand {
 				final = true
 			}
-			if call, ok := ie.Index.(*ast.CallExpr); ok && strings.HasSuffix(types.ExprString(call.Fun), ".Qualifier") && strings.HasPrefix(types.ExprString(call.Fun), "imprt.") {
-				final = true // evaluated after the alias was set
+			if call, ok := ie.Index.(*ast.CallExpr); ok && strings.HasSuffix(calleeName(info, call), "template.Package).Qualifier") {
+				// <the new package>.Qualifier(), evaluated after the alias was set
+				if sel, ok := call.Fun.(*ast.SelectorExpr); ok {
+					if ue, ok := as.Rhs[0].(*ast.UnaryExpr); ok && ue.Op == token.AND {
+						if a, ok := ue.X.(*ast.Ident); ok && isObj(info, sel.X, info.Uses[a]) {
+							final = true
+						}
+					}
+				}
 			}
 			c.Check(final && i > loopIdx, rule, "addImport|qualifier-registration", r.Pos(as.Pos()), "registered under the final qualifier", fmt.Sprintf("the new import is recorded in importQualifiers under %s, not under the qualifier finally chosen: an alias handed out once is not marked taken and is handed out again to another package of the same name", key))
 		case strings.HasSuffix(m, ".imports"):
 			nI++
-			c.Check(key == "path" && i > loopIdx, rule, "addImport|path-registration", r.Pos(as.Pos()), "registered under its path", "the new import is not recorded in imports under its own path")
+			c.Check(newFuncCanon(info, fd).E(ie.Index) == "ARG1.Path<(template.TypesPackage).Path>()" && i > loopIdx, rule, "addImport|path-registration", r.Pos(as.Pos()), "registered under its path", "the new import is not recorded in imports under its own path")
 		}
 	}
 	c.Check(nQ == 1 && nI == 1, rule, "addImport|registrations", r.Pos(fd.Pos()), "one registration per table", fmt.Sprintf("%d/%d stores into importQualifiers/imports, want 1/1", nQ, nI))
@@ -429,11 +441,19 @@ func ruleImportsListing(c *Ctx, r *Repo, rule string) {
 	c.Check(okSort && okRet, rule, "Imports|sorted-by-path", r.Pos(fd.Pos()), "sorted by Path() before being returned", "Imports does not return the list sorted by Path()")
 	if pq := FuncDecl(tp, "Packages.PkgQualifier"); pq != nil {
 		ok := false
-		if rs := rangeOver(pq, pq.Recv.List[0].Names[0].Name); rs != nil && len(rs.Body.List) == 1 {
+		if rs := rangeOverC(tp, pq, "RECV"); rs != nil && len(rs.Body.List) == 1 {
 			if ifs, isIf := rs.Body.List[0].(*ast.IfStmt); isIf {
 				v := rs.Value.(*ast.Ident).Name
 				arg := pq.Type.Params.List[0].Names[0].Name
-				if types.ExprString(ifs.Cond) == v+".Path() == "+arg && len(ifs.Body.List) == 1 && nodeStringStmt(ifs.Body.List[0]) == "return "+v+".Qualifier(), nil" {
+				fcq := newFuncCanon(info, pq)
+				retOK := false
+				if len(ifs.Body.List) == 1 {
+					if rs2, isRet := ifs.Body.List[0].(*ast.ReturnStmt); isRet && len(rs2.Results) == 2 && isNilIdent(info, rs2.Results[1]) {
+						retOK = fcq.E(rs2.Results[0]) == "rangeval(RECV).Qualifier<(template.Package).Qualifier>()"
+					}
+				}
+				_, _ = v, arg
+				if c1 := fcq.E(ifs.Cond); (c1 == "rangeval(RECV).Path<(template.Package).Path>() == ARG0" || c1 == "ARG0 == rangeval(RECV).Path<(template.Package).Path>()") && retOK {
 					if last, isRet := pq.Body.List[len(pq.Body.List)-1].(*ast.ReturnStmt); isRet && len(last.Results) == 2 && !isNilIdent(info, last.Results[1]) {
 						ok = true
 					}
